@@ -559,9 +559,9 @@ def flat_statements(fn):
     return [x.replace('"', "'") for x in out]
 
 
-def moment_formulas(trees):
+def moment_formulas(trees, which):
     rows = []
-    for mod, names in (("util", ["mean_from_sum_count"]), ("nanops", ["nanmean", "nanvar", "nanstd"])):
+    for mod, names in ((("util", ["mean_from_sum_count"]),) if which == "mean" else (("nanops", ["nanmean", "nanvar", "nanstd"]),)):
         for name in names:
             fns = [n for n in trees[mod].body if isinstance(n, ast.FunctionDef) and n.name == name]
             if len(fns) != 1:
@@ -683,8 +683,10 @@ def gen_tables(trees):
             raise Unsupported("core.add_row_margin not found exactly once")
         return coq_str_list(flat_statements(fns[0])).replace("; ", ";\n   ")
     table("gen_add_row_margin", "list string", "core.add_row_margin: its statements in source order", arm, lambda m: f'["{m}"]')
-    table("gen_moment_formulas", "list (string * list string)", "util.mean_from_sum_count, nanops.nanmean / nanvar / nanstd: their statements in source order",
-          lambda: "[" + ";\n   ".join(f'("{k}", {coq_str_list(v)})' for k, v in moment_formulas(trees)) + "]", lambda m: f'[("{m}", [])]')
+    table("gen_mean_formula", "list (string * list string)", "util.mean_from_sum_count: its statements in source order",
+          lambda: "[" + ";\n   ".join(f'("{k}", {coq_str_list(v)})' for k, v in moment_formulas(trees, "mean")) + "]", lambda m: f'[("{m}", [])]')
+    table("gen_nanops_moments", "list (string * list string)", "nanops.nanmean / nanvar / nanstd: their statements in source order",
+          lambda: "[" + ";\n   ".join(f'("{k}", {coq_str_list(v)})' for k, v in moment_formulas(trees, "nanops")) + "]", lambda m: f'[("{m}", [])]')
     table("gen_nanops_dispatch", "list (string * string * string * string)", "nanops.reduce_1d: condition on the reducer name, skipna, initial value, reduction of the chunk results",
           lambda: "[" + ";\n   ".join("(" + ", ".join(q(x) for x in r) + ")" for r in nanops_dispatch(trees["nanops"])) + "]", lambda m: f'[("{m}", "", "", "")]')
     out.append("Definition gen_counter_dtypes : list (string * string * string) :=\n  [" + ";\n   ".join(f'("{a}", "{b}", "{c}")' for a, b, c in sorted(counters)) + "].\n")
